@@ -88,7 +88,7 @@ pub fn run(args: &Args, rep: &mut Report) {
         .extra
         .iter()
         .find_map(|e| e.strip_prefix("len=").and_then(|s| s.parse().ok()))
-        .unwrap_or(if args.thorough() { 6 } else { 4 });
+        .unwrap_or(if args.thorough() { 6 } else { 5 });
     let alphabet = [0, 1, 2, 3];
     let probes = [-1, 0, 1, 2, 3, 4];
     let vs = all_vectors(&alphabet, max_len);
@@ -121,7 +121,7 @@ pub fn run(args: &Args, rep: &mut Report) {
     rep.sample(|| json!({"x":[3,1,3,0],"y":[2,2],"union":[0,1,2,3]}));
 
     // random longer vectors (recursion depth of union is linear by design: keep <= 2000)
-    let n = args.cases(400, 8000);
+    let n = if args.extra.iter().any(|e| e == "norandom") { 0 } else { args.cases(400, 8000) };
     for k in 0..n {
         let mut r = Rng::new(args.seed, args.worker, k);
         let bx = if r.chance(10) { 2000 } else { 60 };
@@ -157,6 +157,9 @@ pub fn run(args: &Args, rep: &mut Report) {
         if refs.iter().map(|s| s.to_string()).collect::<Vec<_>>() != u.iter().cloned().collect::<Vec<_>>() {
             rep.violation("to_ref", format!("to_ref changed content: {:?}", u.as_slice()), json!({"x": u.as_slice()}), None);
         }
+    }
+    if n == 0 {
+        return;
     }
     for cls in ["empty_operand", "disjoint_left_first", "disjoint_right_first", "equal", "equal_tails", "nested", "interleaved"] {
         rep.require(&format!("class.{cls}"), 1);
